@@ -44,6 +44,9 @@ structure Entry where
   host : Bytes
   cid : Bytes
   ip : Bytes
+  /-- text of the address after `AnonymizeIP` (last 2 bytes of an IPv4, last 10
+  of an IPv6 address zeroed) -/
+  ipAnon : Bytes
   reason : Nat
   isFiltered : Bool
   id : Nat
@@ -59,6 +62,8 @@ structure Conf where
   enabled : Bool
   fileEnabled : Bool
   memSize : Nat
+  /-- `AnonymizeClientIP` (the anonymiser masks the address in API answers) -/
+  anonymize : Bool
   /-- `RotationIvl` in ns -/
   ivl : Int
   /-- hosts `h` with `conf.Ignored.Has(h)` (oracle: urlfilter engine) -/
@@ -492,6 +497,10 @@ def parseParams (scanDefault : Int) (r : Req) : Option Params :=
           some { olderThan := olderThan, criteria := critList (parseTerm r) none,
                  offset := offset, limit := limit, scan := scan }
 
+/-- `"client"` of an entry of the answer (`entryToJSON`): a function of the stored
+record and the CURRENT anonymisation setting; the stored record is not touched. -/
+def shownClient (c : Conf) (e : Entry) : Bytes := if c.anonymize then e.ipAnon else e.ip
+
 inductive Resp where
   | bad                                              -- HTTP 400
   | ok (entries : List Entry) (oldest : Option Int)  -- HTTP 200: `data`, `oldest`
@@ -559,9 +568,10 @@ def maxIvlMs : Int := 365 * 86400000
 
 /-- `handlePutQueryLogConfig` with a decodable body, non-null flags and rules
 the engine accepts: a bad interval is answered 422 and changes nothing. -/
-def putConf (s : State) (enabled : Bool) (ivlMs : Int) (ignored : List Bytes) : State :=
+def putConf (s : State) (enabled anonymize : Bool) (ivlMs : Int) (ignored : List Bytes) : State :=
   if ivlMs < minIvlMs ∨ ivlMs > maxIvlMs then s
-  else { s with conf := { s.conf with enabled := enabled, ivl := ivlMs * msNs, ignored := ignored } }
+  else { s with conf := { s.conf with enabled := enabled, anonymize := anonymize, ivl := ivlMs * msNs,
+                                       ignored := ignored } }
 
 def setClients (s : State) (tbl : List (Bytes × ClientInfo)) : State :=
   { s with conf := { s.conf with clients := tbl } }
@@ -575,7 +585,7 @@ inductive Op where
   | rotCheck (now : Int)
   | clear
   | restart (memSize : Nat) (fileEnabled enabled : Bool)
-  | putConf (enabled : Bool) (ivlMs : Int) (ignored : List Bytes)
+  | putConf (enabled anonymize : Bool) (ivlMs : Int) (ignored : List Bytes)
   | setClients (tbl : List (Bytes × ClientInfo))
   deriving Repr
 
@@ -586,7 +596,7 @@ def step (s : State) : Op → State
   | .rotCheck now => rotCheck s now
   | .clear => clear s
   | .restart m f en => restart s m f en
-  | .putConf en ivl ign => putConf s en ivl ign
+  | .putConf en an ivl ign => putConf s en an ivl ign
   | .setClients tbl => setClients s tbl
 
 def run (s : State) (ops : List Op) : State := ops.foldl step s
